@@ -16,6 +16,8 @@ CHECKS = {
          "every annotation reported by every enumerated operator term or routine output is tested for truth on the exact reference matrix (Hermitian / PSD / unitary / orthonormal columns); the declaration wrapper is checked to leave its argument unchanged"),
  "C20": ("(operator of every kind and depth-1 nesting) x every index expression (int pairs, rows, 245 slices per axis, index arrays incl. unsorted/negative/repeated, list pairs); same expression on the reference matrix",
          "every enumerated indexing expression on every enumerated operator is compared with the same expression on the exact reference matrix; sub-operators additionally through shape, dtype, to_dense, products with real and complex operands on both sides"),
+ "C04": ("complete lattice function x operator class (all classes found by walking LinearOperator.__subclasses__, plus one-level composites) x annotation x algorithm class x optional-argument arity: real plum resolver on real arguments, then the public call",
+         "every point of the finite (function, kind, annotation, algorithm, arity) lattice is resolved with the live rule table and, for admitted algorithms, executed through the public entry point; AmbiguousLookupError anywhere and NotFoundLookupError on admitted tuples are violations"),
 }
 PENDING = {}
 props = [json.loads(l) for l in open(os.path.join(ROOT, "properties.jsonl"))]
